@@ -32,11 +32,19 @@ res() { echo "$1" | tee -a "$log"; }
 		if go test -count=1 ./... >>"$log" 2>&1; then ok=1; break; fi
 	done
 	[ $ok = 1 ] && res "suite_with_change=pass" || res "suite_with_change=FAIL"
+	if [ "$dest" = SCRIPT ]; then
+		cp "$out/demo.sh" ./seeded-demo.sh
+		if bash ./seeded-demo.sh >>"$log" 2>&1; then res "demo_with_change=pass(!)"; else res "demo_with_change=fail"; fi
+		git checkout -- .
+		if bash ./seeded-demo.sh >>"$log" 2>&1; then res "demo_without_change=pass"; else res "demo_without_change=FAIL"; fi
+		rm -f ./seeded-demo.sh
+	else
 	cp "$out/$(basename "$demo")" "$dest"
 	if go test -count=1 "$@" "$pkg" >>"$log" 2>&1; then res "demo_with_change=pass(!)"; else res "demo_with_change=fail"; fi
 	git checkout -- . && git apply -R --check "$out/patch.diff" 2>/dev/null && res "patch still applied?!"
 	if go test -count=1 "$@" "$pkg" >>"$log" 2>&1; then res "demo_without_change=pass"; else res "demo_without_change=FAIL"; fi
 	rm -f "$dest"
+	fi
 )
 # now the check, against the scratch worktree with the change applied, so that
 # /repo stays untouched and usable meanwhile (set SEED_IN_REPO=1 to patch /repo
